@@ -1,6 +1,6 @@
 (* EXTRACT-Z: c13 run_c13 *)
 (* Executable entry point for the C13 correspondence (and the accessor half of C18). *)
-From OM Require Import Base.Lists Base.Wire Maths.Dense Maths.DenseModel.
+From OM Require Import Base.Lists Base.Wire Maths.Dense Maths.DenseModel Maths.Alias.
 Local Open Scope Z_scope.
 
 Definition getDense : dec dense :=
@@ -11,7 +11,8 @@ Definition outVec (v : list Z) : wire := ST_OK :: zn (length v) :: v.
 Definition outDense (M : dense) : wire := ST_OK :: zn (dnl M) :: zn (dnc M) :: dd M.
 Definition outSym (S : sym) : wire := ST_OK :: zn (sn S) :: sd S.
 Definition outZ (x : Z) : wire := [ST_OK; x].
-Definition outOpt {A} (o : option A) (k : A -> wire) : wire := match o with Some a => k a | None => [ST_ASSERT] end.
+Definition ST_UNDEF : Z := 4.      (* out-of-bounds access / uninitialised result *)
+Definition outOpt {A} (o : res A) (k : A -> wire) : wire := match o with Ok a => k a | Throw => [ST_ASSERT] | Undef => [ST_UNDEF] end.
 
 Definition d1 {A} (a : dec A) (k : A -> wire) (w : wire) : wire := run_dec a w k.
 Definition d2 {A B} (a : dec A) (b : dec B) (k : A -> B -> wire) (w : wire) : wire :=
@@ -37,17 +38,17 @@ Definition run_c13 (w : wire) : wire :=
   | 10 :: w => d2 getDense getSym (fun A B => outOpt (m_mult_sym A B) outDense) w
   | 11 :: w => d2 getDense getDense (fun A B => outOpt (m_addsub 1 A B) outDense) w
   | 12 :: w => d2 getDense getDense (fun A B => outOpt (m_addsub (-1) A B) outDense) w
-  | 13 :: w => d2 getDense getZ (fun A x => outDense (m_scale A x)) w
+  | 13 :: w => d2 getDense getZ (fun A x => outOpt (m_scale A x) outDense) w
   | 14 :: w => d2 getDense getDense (fun A B => outOpt (m_addsub 1 A B) outDense) w
   | 15 :: w => d2 getDense getDense (fun A B => outOpt (m_addsub (-1) A B) outDense) w
-  | 16 :: w => d2 getDense getZ (fun A x => outDense (m_scale A x)) w
+  | 16 :: w => d2 getDense getZ (fun A x => outOpt (m_scale A x) outDense) w
   | 17 :: w => d2 getDense getVec (fun A v => outOpt (m_mulv A v) outVec) w
   | 18 :: w => d2 getDense getVec (fun A v => outOpt (m_tmulv A v) outVec) w
   | 19 :: w => d2 getDense getDense (fun A B => outOpt (m_tmult A B) outDense) w
   | 20 :: w => d2 getDense getDense (fun A B => outOpt (m_multt A B) outDense) w
   | 21 :: w => d2 getDense getDense (fun A B => outOpt (m_tmultt A B) outDense) w
   | 22 :: w => d1 getDense (fun A => outDense (m_transpose A)) w
-  | 23 :: w => d1 getDense (fun A => outZ (m_frob2 A)) w
+  | 23 :: w => d1 getDense (fun A => outOpt (m_frob2 A) outZ) w
   | 24 :: w => d2 getDense getDense (fun A B => outOpt (m_dot A B) outZ) w
   | 25 :: w => d2 getDense getZ (fun A x => outDense (m_set A x)) w
   | 26 :: w => d1 getSym (fun S => outDense (sym_to_dense S)) w
@@ -55,20 +56,20 @@ Definition run_c13 (w : wire) : wire :=
   | 30 :: w => d2 getVec getZ (fun v i => outOpt (v_get v i) outZ) w
   | 31 :: w => d2 getVec getVec (fun u v => outOpt (v_add u v) outVec) w
   | 32 :: w => d2 getVec getVec (fun u v => outOpt (v_sub u v) outVec) w
-  | 33 :: w => d1 getVec (fun u => outVec (v_neg u)) w
-  | 34 :: w => d2 getVec getZ (fun u x => outVec (v_scale u x)) w
-  | 35 :: w => d2 getVec getZ (fun u x => outVec (v_addc u x)) w
-  | 36 :: w => d2 getVec getZ (fun u x => outVec (v_addc u (- x))) w
+  | 33 :: w => d1 getVec (fun u => outOpt (v_neg u) outVec) w
+  | 34 :: w => d2 getVec getZ (fun u x => outOpt (v_scale u x) outVec) w
+  | 35 :: w => d2 getVec getZ (fun u x => outOpt (v_addc u x) outVec) w
+  | 36 :: w => d2 getVec getZ (fun u x => outOpt (v_addc u (- x)) outVec) w
   | 37 :: w => d2 getVec getVec (fun u v => outOpt (v_dot u v) outZ) w
   | 38 :: w => d2 getVec getVec (fun u v => outOpt (v_kmult u v) outVec) w
   | 39 :: w => d2 getVec getVec (fun u v => outOpt (v_outer u v) outDense) w
-  | 40 :: w => d1 getVec (fun u => outZ (v_sum u)) w
-  | 41 :: w => d1 getVec (fun u => outZ (v_norm2 u)) w
+  | 40 :: w => d1 getVec (fun u => outOpt (v_sum u) outZ) w
+  | 41 :: w => d1 getVec (fun u => outOpt (v_norm2 u) outZ) w
   | 42 :: w => d3 getVec getZ getZ (fun u a b => outOpt (v_subvect u a b) outVec) w
   | 43 :: w => d2 getVec getDense (fun v M => outOpt (v_mulm v M) outVec) w
   | 44 :: w => d2 getVec getVec (fun u v => outOpt (v_add u v) outVec) w
   | 45 :: w => d2 getVec getVec (fun u v => outOpt (v_sub u v) outVec) w
-  | 46 :: w => d2 getVec getZ (fun u x => outVec (v_scale u x)) w
+  | 46 :: w => d2 getVec getZ (fun u x => outOpt (v_scale u x) outVec) w
   | 47 :: w => d2 getVec getZ (fun u x => outOpt (v_set u x) outVec) w
   | 50 :: w => d3 getSym getZ getZ (fun S i j => outOpt (s_get S i j) outZ) w
   | 51 :: w => d4 getSym getZ getZ getZ (fun S i j v => outOpt (s_put S i j v) outSym) w
@@ -81,11 +82,18 @@ Definition run_c13 (w : wire) : wire :=
   | 58 :: w => d2 getSym getSym (fun A B => outOpt (s_mult_sym A B) outDense) w
   | 59 :: w => d2 getSym getDense (fun A B => outOpt (s_mult A B) outDense) w
   | 60 :: w => d2 getSym getVec (fun A v => outOpt (s_mulv A v) outVec) w
-  | 61 :: w => d2 getSym getZ (fun A x => outSym (s_scale A x)) w
+  | 61 :: w => d2 getSym getZ (fun A x => outOpt (s_scale A x) outSym) w
   | 62 :: w => d2 getSym getSym (fun A B => outOpt (s_addsub 1 A B) outSym) w
   | 63 :: w => d2 getSym getSym (fun A B => outOpt (s_addsub (-1) A B) outSym) w
-  | 64 :: w => d2 getSym getZ (fun A x => outSym (s_scale A x)) w
+  | 64 :: w => d2 getSym getZ (fun A x => outOpt (s_scale A x) outSym) w
   | 65 :: w => d1 getDense (fun M => outOpt (s_of_dense M) outSym) w
   | 66 :: w => d5 getSym getZ getZ getZ getZ (fun S a b c d => outOpt (s_block S a b c d) outDense) w
+  | 70 :: w => d4 getVec getN getN getZ (fun data who k x => let '(a, b, c) := copy_scenario data who k x in ST_OK :: zn (length a) :: a ++ b ++ c) w
+  (* pinned variants (regression witnesses of repaired defects) *)
+  | 103 :: w => d5 getDense getZ getZ getZ getZ (fun M a b c d => outOpt (m_submat_pinned M a b c d) outDense) w
+  | 117 :: w => d2 getDense getVec (fun A v => outOpt (m_mulv_pinned A v) outVec) w
+  | 118 :: w => d2 getDense getVec (fun A v => outOpt (m_tmulv_pinned A v) outVec) w
+  | 121 :: w => d2 getDense getDense (fun A B => outOpt (m_tmultt_pinned A B) outDense) w
+  | 155 :: w => d3 getSym getZ getZ (fun S a b => outOpt (s_submat2_pinned S a b) outSym) w
   | _ => [-1]
   end.
